@@ -6,6 +6,9 @@
 #include META_TYPES
 #include "meta.h"
 const char *M_BLK; size_t M_LEN, M_KO, M_KE, M_VE, M_T, A_KE; int M_HASVAL;
+#ifndef C17_FORALL
+size_t M_G;
+#endif
 #include META_ITER_INC
 #include META_CONT_INC
 
@@ -50,6 +53,7 @@ void h_length(void)
 
 /* loop-free given the contract of metaiterator_advance: Port::meta() strips the leading ':', begin() starts at the first
  * key (and would strip a second ':' - excluded by wf: a key does not start with ':'), end() is the null iterator */
+#ifdef C17_FORALL
 void h_begin_end(void)
 {
     char *b = mk_block();
@@ -71,3 +75,52 @@ void h_begin_end(void)
     __CPROVER_assert(mn.str_ptr == NULL && bn.title == NULL && MetaContainer_length(&mn) == 0, "C17 a port without metadata has an empty container");
     V_COVER(it.value != NULL);
 }
+#else
+void h_begin_end(void)
+{
+    char *b = mk_block();
+    __CPROVER_assume(A_WF(b + 1) && b[0] == ':' && b[1] != ':' && b[1] != 0);
+    struct Port port = { "x", b, NULL, NULL };
+    struct MetaContainer mc = Port_meta(&port);
+    __CPROVER_assert(mc.str_ptr == b + 1, "C17 Port::meta() strips exactly the leading ':'");
+    struct MetaIterator it = MetaContainer_begin(&mc);
+    __CPROVER_assert(it.title == b + 1, "C17 begin() is at the first key");
+    if(it.value != NULL) {
+        size_t vo = (size_t)(it.value - b);
+        __CPROVER_assert(__CPROVER_same_object(it.value, b) && vo >= 3 && vo <= A_KE + 2, "C17 begin(): a value lies behind the first key, inside the block");
+        __CPROVER_assert(b[vo - 1] == '=' && b[vo - 2] == 0, "C17 begin(): a value follows a NUL and an '='");
+        __CPROVER_assert(M_G < 1 || M_G >= vo - 2 || b[M_G] != 0, "C17 begin(): that NUL is the first one behind the key start (arbitrary offset M_G before it is not NUL)");
+    }
+    struct MetaContainer raw = MetaContainer_make(b);
+    struct MetaIterator it2 = MetaContainer_begin(&raw);
+    __CPROVER_assert(it2.title == b + 1, "C17 begin() of a container built from the metadata pointer itself strips the ':'");
+    struct MetaIterator e = MetaContainer_end(&mc);
+    __CPROVER_assert(e.title == NULL && e.value == NULL && !MetaIterator_bool(&e) && MetaIterator_bool(&it), "C17 end() is the null iterator");
+    struct Port nometa = { "x", NULL, NULL, NULL };
+    struct MetaContainer mn = Port_meta(&nometa);
+    struct MetaIterator bn = MetaContainer_begin(&mn);
+    __CPROVER_assert(mn.str_ptr == NULL && bn.title == NULL && MetaContainer_length(&mn) == 0, "C17 a port without metadata has an empty container");
+    V_COVER(it.value != NULL);
+}
+#endif
+
+#ifdef C17_FORALL
+/* Non-vacuity of the quantified requires clauses: they HOLD for a concrete example block (constant bounds, so the SAT back end
+ * expands the quantifiers; the quantified obligations themselves cannot carry a canary because SMT solvers answer `unknown`
+ * when asked for a model of a quantified formula). */
+void h_forall_example(void)
+{
+    static const char ex[] = ":ab\0=c:\0:d\0";               /* entries: ["ab" = "c:"] ["d"] ; 11 bytes + implicit NUL = 12 */
+    char *b = malloc(sizeof(ex));
+    for(size_t i = 0; i < sizeof(ex); i++) b[i] = ex[i];
+    M_BLK = b; M_LEN = sizeof(ex);
+    M_KO = 1; M_KE = 3; M_HASVAL = 1; M_VE = 7; A_KE = 10; M_T = 11;
+    __CPROVER_assert(M_ENTRY_WF && M_ENTRY_NO_NUL, "C17 example block satisfies the entry requires of the quantified operator++ contract");
+    __CPROVER_assert(M_BLK[M_E + 1] == ':' && A_KEY_WF(M_E + 2), "C17 example block satisfies the next-key requires");
+    __CPROVER_assert(__CPROVER_forall { size_t qi; (2 <= qi && qi < M_T) ==> (M_BLK[qi - 1] != 0 || M_BLK[qi] != 0) }
+                     && M_BLK[M_T] == 0 && M_BLK[M_T - 1] == 0 && M_LEN == M_T + 1, "C17 example block satisfies the requires of the quantified length() contract");
+    struct MetaIterator it; it.title = b + 1; it.value = b + 5;
+    MetaIterator_inc(&it);
+    __CPROVER_assert(it.title == b + 9 && it.value == NULL, "C17 example: operator++ lands on the second entry");
+}
+#endif
